@@ -94,4 +94,39 @@ theorem c03_preserve_verbatim (o : Opts) (m : Dict) (level : Nat) (ad : List (St
 example : Reduced (.tag "" "p" [] [.text "Hold ".toList, .tag "" "hi" [] [.text "the".toList], .text " thieves!".toList]) := by
   constructor <;> rfl
 
+/-! ## totality (width 0)
+
+The pretty serializer recurses structurally (no budget); with a prefix for every namespace of the tree
+it yields an output (`prettyRoot_total`), and prefix collection succeeds under the size bound of
+`c13_collect_total`. -/
+
+/-- **`serialize(format_options=FormatOptions(width=0, …))` yields an output** -/
+theorem c03_serialize_pretty_total (o : Opts) (nsmap : Dict) (hn : NsMapOk nsmap)
+    (root : Node) (htag : root.isTag = true)
+    (orders : List (List String)) (hord : ordersValid root orders = true)
+    (hsmall : (Ser.dedup (treeNamespaces root)).length + nsmap.length ≤ 65538) :
+    ∃ s, serializePretty o nsmap root orders = .ok s := by
+  obtain ⟨m, hm, hok⟩ := c13_collect_total_ok nsmap hn root orders hord hsmall
+  obtain ⟨ps, hps⟩ := prettyRoot_total o m root htag hok.total
+  exact ⟨renderP ps, by simp only [serializePretty, hm, hps]⟩
+
+/-- whitespace transparency of the whole call, without assuming a successful run -/
+theorem c03_serialize_pretty_transparent_total (o : Opts) (ho : IndentOk o) (nsmap : Dict)
+    (hn : NsMapOk nsmap) (root : Node) (htag : root.isTag = true) (hs : Serializable root)
+    (hr : Reduced root) (orders : List (List String)) (hord : ordersValid root orders = true)
+    (hsmall : (Ser.dedup (treeNamespaces root)).length + nsmap.length ≤ 65538) :
+    ∃ ps u, serializePretty o nsmap root orders = .ok (renderP ps) ∧
+      build (eraseAll ps) = some u ∧ reduceSpec pyWs u = normalize root := by
+  obtain ⟨m, hm⟩ := c13_collect_total nsmap hn root orders hord hsmall
+  obtain ⟨ps, u, hps, hu, hred⟩ :=
+    c03_serialize_pretty_transparent o ho nsmap hn root htag hs hr orders hord m hm
+  exact ⟨ps, u, by simp only [serializePretty, hm, hps], hu, hred⟩
+
+/-! non-vacuity: a reduced mixed-content tree with two namespaces -/
+example : ∃ s, serializePretty ⟨"  ".toList, false⟩
+    [("xml", Gen.xmlNamespace), ("xmlns", Gen.xmlnsNamespace)]
+    (.tag "urn:a" "p" [] [.text "Hold ".toList, .tag "urn:b" "hi" [] [.text "the".toList], .text " thieves!".toList])
+    [["urn:a"], ["urn:b"]] = .ok s :=
+  c03_serialize_pretty_total _ _ ⟨by decide, by decide, by decide, by decide⟩ _ rfl _ (by decide) (by decide)
+
 end Delb.Pretty
